@@ -142,7 +142,7 @@ def run(res, only=None):
         parts.append(('support', cases, common.pmap(sweep.run_case, cases, chunk=2)))
     nontriv = 0
     for name, cases, out in parts:
-        for c, r in zip(cases, out):
+        for c, r in common.good(cases, out, res):
             cnt = r["cnt"]
             res.add("traces_validated_against_impl", cnt["executions"])
             res.add("transitions", cnt["transitions"])
